@@ -457,8 +457,8 @@ void GridFourier::getDifferentiationWeights(const double x[], double weights[]) 
         shift_cache[i].resize(num_oned_points);
         shift_cache[i][0] = std::complex<double>(1.0, 0.0);
         double theta = -2.0 * Maths::pi / ((double) num_oned_points);
-        std::complex<double> step(std::cos(theta), std::sin(theta));
-        for(int j=1; j<num_oned_points; j++) shift_cache[i][j] = shift_cache[i][j-1] * step;
+        // each entry is computed directly, see getInterpolationWeights()
+        for(int j=1; j<num_oned_points; j++) shift_cache[i][j] = std::complex<double>(std::cos(theta * j), std::sin(theta * j));
     }
 
     // Cache exp(-2 * π * x[k] * [3^{l} + 1] / 2) for every (k, l) where N = 3^l.
@@ -479,7 +479,7 @@ void GridFourier::getDifferentiationWeights(const double x[], double weights[]) 
         std::complex<double> exp_Ibx = slope_cache[d][0] * shift_cache[l][r];
         if (std::abs(1.0 - exp_Ibx.real()) <= Maths::num_tol)
             return (double) N;
-        int offset = (r * (N + 1) / 2) % N;
+        int offset = static_cast<int>((static_cast<long long>(r) * (N + 1) / 2) % N); // r * (N + 1) does not fit in int for level 10 and above
         std::complex<double> exp_Iax = slope_cache[d][l] * shift_cache[l][offset];
         return 2.0 * ((1.0 - exp_Iax) / (1.0 - exp_Ibx)).real() - 1.0;
      };
@@ -492,7 +492,7 @@ void GridFourier::getDifferentiationWeights(const double x[], double weights[]) 
         double N_dbl = (double) N;
         double slope_b = 2.0 * Maths::pi;
         double slope_a = Maths::pi * (N_dbl + 1.0);
-        int offset = (r * (N + 1) / 2) % N;
+        int offset = static_cast<int>((static_cast<long long>(r) * (N + 1) / 2) % N); // r * (N + 1) does not fit in int for level 10 and above
         std::complex<double> exp_Iax = slope_cache[d][l] * shift_cache[l][offset];
         std::complex<double> exp_Ia_sub_Ib = exp_Iax * std::conj(exp_Ibx);
         // q1 below is equivalent to [2.0 - 2.0 * cos(b)], but is more computationally stable since it combines
